@@ -3,6 +3,7 @@ package v2
 import (
 	"errors"
 	"io"
+	"math"
 	"os"
 	"sync"
 )
@@ -148,6 +149,19 @@ func (fw *FileWriter) openExistingFile() error {
 	return nil
 }
 
+// validateEntry rejects entries the on-disk format cannot represent. The key
+// length is stored in 16 bits and Entry.Deserialize refuses an empty key, so
+// buffering either kind would make the whole file unreadable on the next load.
+func validateEntry(entry *Entry) error {
+	if len(entry.Key) == 0 {
+		return ErrEmptyKey
+	}
+	if len(entry.Key) > math.MaxUint16 {
+		return ErrKeyTooLong
+	}
+	return nil
+}
+
 // WriteEntry adds an entry to the buffer and flushes if necessary
 func (fw *FileWriter) WriteEntry(entry Entry) error {
 	fw.mu.Lock()
@@ -155,6 +169,10 @@ func (fw *FileWriter) WriteEntry(entry Entry) error {
 
 	if fw.closed {
 		return ErrFileClosed
+	}
+
+	if err := validateEntry(&entry); err != nil {
+		return err
 	}
 
 	shouldFlush := fw.buffer.Add(entry)
@@ -172,6 +190,13 @@ func (fw *FileWriter) WriteEntries(entries []Entry) error {
 
 	if fw.closed {
 		return ErrFileClosed
+	}
+
+	// Validate everything first so that a bad entry does not leave a partial batch buffered.
+	for i := range entries {
+		if err := validateEntry(&entries[i]); err != nil {
+			return err
+		}
 	}
 
 	for _, entry := range entries {
